@@ -18,12 +18,12 @@ def version_texts(tier):
     rel = ["0", "1", "1.0", "1.2", "2.0", "2.3.1", "1.0.0", "3.10", "0.9", "10.1.2.3"]
     if tier != "quick":
         rel += ["2", "1.10", "2.4.0", "9.0.10", "1.0.0.0", "3.8.5"]
-    suf = ["", "a1", "b2", "rc1", ".post1", ".dev1", "a1.dev2", ".post2.dev3", "rc1.post1"]
+    suf = ["", "a1", "b2", "rc1", ".post1", ".dev1", "a1.dev2", ".post2.dev3", "rc1.post1", ".post0", ".dev0", "a0", "rc0", ".post0.dev0"]
     out = []
     for r in rel:
         for s in suf:
             out.append(r + s)
-    out += ["1!0.5", "1!2.3", "1!1.0.post1", "2!0"]
+    out += ["1!0.5", "1!2.3", "1!1.0.post1", "2!0", "1.3.0", "1.3.0.post0", "1.2.0", "1.2.0.post0", "2.0.0.post0", "1!2.0.post0", "3.0.post0", "1.1", "1.1.0.post0"]
     alt = ["1.0.RC1", "1.0.c1", "1.0.pre1", "1.0.r1", "1.0-1", "1.0alpha1", "v1.2", "1.0.PoST1", "1.0_post1", "01.02", "1.0rev2", "1.0.preview3"]
     return out, alt
 
